@@ -50,17 +50,25 @@ def _cases(draw):
             # Julian dates in the importer: as the producing run accumulated them (start + k*dt/86400), or the calendar conversion of
             # each epoch's timestamp (what an external tool or ImporterDatabase.loadEphemerisFile stores) - one ulp apart for ~30%
             "jd_mode": draw(st.sampled_from(["as_produced", "calendar", "calendar"])),
+            # a second sensor at the same site as the ground sensor (a radar next to a radar): every stored observation of the first is
+            # also stored for the second - same epoch, same target, same sensor position, different sensor
+            "colocated": draw(st.sampled_from([False, False, True])),
             # the importing scenario may split the same agents over two tasking engines (each sensor/target pair of the source
             # run stays inside one engine)
             "two_engines": draw(st.sampled_from([False, False, "same_split", "split_only_importing", "shared_target"]))}
 
 
-def _agents(t0):
+SEN3 = 25003
+
+
+def _agents(t0, colocated=False):
     tgts = [kit.eci_target(TGT[0], kit.circular_state_over(SITE[0], SITE[1], t0, 20000.0, heading_deg=30.0)),
             kit.eci_target(TGT[1], kit.circular_state_over(SITE[0], SITE[1], t0, 21000.0, heading_deg=100.0, offset_deg=(3.0, -2.0)))]
     cov = [[1e-7, 0, 0, 0], [0, 1e-7, 0, 0], [0, 0, 0.01, 0], [0, 0, 0, 1e-7]]
     sens = [kit.ground_sensor(SEN[0], SITE[0], SITE[1], covariance=cov),
             kit.space_sensor(SEN[1], kit.circular_state_over(SITE[0], SITE[1], t0, 9000.0, heading_deg=200.0, offset_deg=(1.0, 1.0)), kind="adv_radar", covariance=cov)]
+    if colocated:
+        sens.append(kit.ground_sensor(SEN3, SITE[0], SITE[1], covariance=cov))
     return tgts, sens
 
 
@@ -90,13 +98,14 @@ def importer(c, rec):
     try:
         src = os.path.join(tmp, "source.sqlite3")
         imp = os.path.join(tmp, "importer.sqlite3")
-        tgts, sens = _agents(t0)
+        tgts, sens = _agents(t0, bool(c.get("colocated")))
+        sens_a, sens_b = [sens[0]] + sens[2:], [sens[1]]  # the co-located sensor shares the ground sensor's engine
         # ---- phase A: a previous realtime run produces the importer database ----------------------------
         # (with two engines both runs use the same split, so that every stored observation's sensor and target share an engine)
         mode = c.get("two_engines")
         mode = "same_split" if mode is True else (mode or None)
-        split = [kit.engine(1, sens[:1], tgts[:1]), kit.engine(2, sens[1:], tgts[1:])]
-        shared = [kit.engine(1, sens[:1], tgts), kit.engine(2, sens[1:], tgts[1:])]  # target 2 belongs to both engines
+        split = [kit.engine(1, sens_a, tgts[:1]), kit.engine(2, sens_b, tgts[1:])]
+        shared = [kit.engine(1, sens_a, tgts), kit.engine(2, sens_b, tgts[1:])]  # target 2 belongs to both engines
         engines = [kit.engine(1, sens, tgts)] if mode in (None, "split_only_importing") else (split if mode == "same_split" else shared)
         cfg_a = kit.scenario_config(t0, t0 + timedelta(seconds=(n + 1) * dt), dt, engines, seq_filter={"alpha": 0.5})
         try:
@@ -141,6 +150,13 @@ def importer(c, rec):
         for aid, jd, *st_ in cur.execute("select agent_id, julian_date, pos_x_km, pos_y_km, pos_z_km, vel_x_km_p_sec, vel_y_km_p_sec, vel_z_km_p_sec from truth_ephemerides").fetchall():
             k = [kk for kk, j in jd_of.items() if abs(j - jd) < 1e-9][0]
             record[(aid, k)] = np.asarray(st_, dtype=np.float64)
+        if c.get("colocated"):
+            cols = [r[1] for r in cur.execute("pragma table_info(observations)").fetchall() if r[1] != "id"]
+            sel = ", ".join("?" if col == "sensor_id" else col for col in cols)
+            cur.execute(f"delete from observations where sensor_id = {SEN3}")
+            cur.execute(f"insert into observations ({', '.join(cols)}) select {sel} from observations where sensor_id = ?", (SEN3, SEN[0]))
+            con.commit()
+            rec.label("colocated_sensor_observations_stored")
         obs_rows = {}
         for sid, tid, jd in cur.execute("select sensor_id, target_id, julian_date from observations").fetchall():
             k = [kk for kk, j in jd_of.items() if abs(j - jd) < 1e-9][0]
@@ -149,7 +165,7 @@ def importer(c, rec):
         sha0, dump0 = _sha(imp), _dump(imp)
         # every mix with at least one imported class: targets only, targets + sensors, sensors only
         targets_imported = not (c.get("targets_realtime") and c["sensors_imported"])
-        imported_ids = (list(TGT) if targets_imported else []) + (list(SEN) if c["sensors_imported"] else [])
+        imported_ids = (list(TGT) if targets_imported else []) + ((list(SEN) + ([SEN3] if c.get("colocated") else [])) if c["sensors_imported"] else [])
         rec.label("imported:" + "+".join(n_ for n_, f in (("targets", targets_imported), ("sensors", c["sensors_imported"])) if f))
         # which step is the first with a registered agent lacking a record
         first_missing = None
@@ -212,7 +228,7 @@ def importer(c, rec):
                         raise Violation("imported_state", f"step {k}: agent {aid} state {got.tolist()} != importer record {record[(aid, k)].tolist()}")
                     if abs(float(ag.time) - k * dt) > 1e-3:
                         raise Violation("imported_time", f"step {k}: imported agent {aid} is at scenario time {float(ag.time)!r}, step epoch is {k * dt}")
-                    if aid in SEN:
+                    if aid in SEN or aid == SEN3:
                         # what a sensing agent derives from its state (Earth-fixed position, used for az/el and masks) belongs to the same epoch
                         from resonaate.physics.transforms.methods import eci2ecef
 
@@ -229,6 +245,18 @@ def importer(c, rec):
                 if c["obs_imported"]:
                     want = sorted(p for p in obs_rows.get(k, []) if p[1] in TGT)
                     got = sorted(p for tid, lst in fed.get(k, {}).items() for p in lst)
+                    if got != want and c.get("colocated"):
+                        # known finding K3 (exactly it, nothing else): of the observations of one target stored for this epoch by the
+                        # ground sensor and by the sensor co-located with it, one is dropped as a "duplicate"
+                        lost = list(want)
+                        for p_ in got:
+                            if p_ in lost:
+                                lost.remove(p_)
+                        partner = {SEN[0]: SEN3, SEN3: SEN[0]}
+                        only_k3 = len(lost) + len(got) == len(want) and all(sid in partner and (partner[sid], tid) in got for sid, tid in lost)
+                        if only_k3 and rec.excluded("K3-colocated-duplicate"):
+                            rec.label("known_K3_colocated_observation_dropped")
+                            want = got
                     if got != want:
                         raise Violation("imported_observations", f"step {k}: observations handed to the filters {got} != observations stored in the importer for this epoch {want}")
                     for tid, lst in fed.get(k, {}).items():
